@@ -170,8 +170,37 @@ func dumpHang(name string) {
 	_ = os.WriteFile(fmt.Sprintf("/tmp/vsync-hang-%d.txt", os.Getpid()), append([]byte("scenario "+name+"\n"), buf...), 0o644)
 }
 
+// item is a pending prefix, stored compactly (3 bytes per choice point): the
+// frontier of a large exploration holds millions of them.
 type item struct {
-	prefix []Point
+	enc []byte
+}
+
+func packPrefix(ps []Point) []byte {
+	b := make([]byte, 0, 3*len(ps))
+	for _, p := range ps {
+		fl := byte(0)
+		if p.Env {
+			fl |= 1
+		}
+		if p.EnvCost {
+			fl |= 2
+		}
+		n, c := p.N, p.Chosen
+		if n > 255 {
+			n = 255
+		}
+		b = append(b, fl, byte(n), byte(c))
+	}
+	return b
+}
+
+func unpackPrefix(b []byte) []Point {
+	ps := make([]Point, len(b)/3)
+	for i := range ps {
+		ps[i] = Point{Env: b[3*i]&1 != 0, EnvCost: b[3*i]&2 != 0, N: int(b[3*i+1]), Chosen: int(b[3*i+2])}
+	}
+	return ps
 }
 
 // Explore enumerates every schedule / environment choice of cfg.Body with at
@@ -180,6 +209,7 @@ func Explore(t *testing.T, cfg *Config) *Result {
 	res := &Result{Name: cfg.Name, BoundCompleted: -1}
 	stacks := make([][]item, cfg.Bound+1)
 	stacks[0] = []item{{}}
+	_ = packPrefix
 	outcomes := map[uint64]struct{}{}
 	states := map[uint64]struct{}{}
 	var visited map[uint64]int8
@@ -202,7 +232,8 @@ func Explore(t *testing.T, cfg *Config) *Result {
 			n := len(stacks[level])
 			it := stacks[level][n-1]
 			stacks[level] = stacks[level][:n-1]
-			x := runOnce(t, cfg, it.prefix, visited, res.Executions >= 3)
+			itPrefix := unpackPrefix(it.enc)
+			x := runOnce(t, cfg, itPrefix, visited, res.Executions >= 3)
 			res.Executions++
 			if x.Pruned {
 				res.Pruned++
@@ -302,7 +333,7 @@ func Explore(t *testing.T, cfg *Config) *Result {
 			cost := 0
 			for i := 0; i < len(x.Points); i++ {
 				p := x.Points[i]
-				if i >= len(it.prefix) {
+				if i >= len(itPrefix) {
 					for alt := 1; alt < p.N; alt++ {
 						c := cost
 						if p.EnvCost || !p.Env && (p.CurEnabled || cfg.Delay) {
@@ -314,7 +345,7 @@ func Explore(t *testing.T, cfg *Config) *Result {
 						np := make([]Point, i+1)
 						copy(np, x.Points[:i])
 						np[i] = Point{N: p.N, Chosen: alt, Env: p.Env, EnvCost: p.EnvCost}
-						stacks[c] = append(stacks[c], item{prefix: np})
+						stacks[c] = append(stacks[c], item{enc: packPrefix(np)})
 					}
 				}
 				if (p.EnvCost || !p.Env && (p.CurEnabled || cfg.Delay)) && p.Chosen > 0 {
